@@ -76,7 +76,7 @@ def render_module(kinds, rot=0, layout='google'):
     for i, k in enumerate(kinds):
         lines = kind_text(k, i, rot)
         if layout == 'google':
-            body = ['Summary %d' % i, '', ['Example:', 'Doctest:'][(rot + i) % 2]] + ['    ' + l for l in lines]
+            body = ['Summary %d' % i, '', ['Example:', 'Doctest:', 'Example::', 'Examples:'][(rot + i) % 4]] + ['    ' + l for l in lines]
         else:
             body = ['Summary %d' % i, ''] + lines
         doc = '\n'.join('    ' + l if l else '' for l in body)
